@@ -35,6 +35,7 @@ pub fn run(r: &mut Report) {
     trees(r);
     run_step_before_after(r);
     run_step_content_oracle(r);
+    run_step_output_bytes(r);
 }
 
 /// independent oracle: every regular file reachable under `root` (following symlinks to files and directories, never entering a
@@ -207,5 +208,26 @@ fn run_step_content_oracle(r: &mut Report) {
                 _ => ("layout".to_string(), false) },
             Ok(Err(e)) => (format!("Err({})", e), false), Err(p) => (format!("panic: {}", p), false) };
         r.case("run-records-what-is-there", json!({"command": script, "scenario": id}), "materials = digests of the directory before, products = digests of the directory after", obs, ok);
+    }
+}
+
+/// byproducts are the command's output streams: output that cannot be represented (not UTF-8) is refused, not approximated
+fn run_step_output_bytes(r: &mut Report) {
+    for (id, script, representable) in [("ascii", "printf 'out'; printf 'err' 1>&2", true), ("utf8", "printf '\\303\\251'", true),
+        ("invalid-utf8-on-stdout", "printf 'a\\377b'", false), ("invalid-utf8-on-stderr", "printf 'a\\377b' 1>&2", false), ("lone-continuation-byte", "printf '\\200'", false), ("nul-byte", "printf 'a\\000b'", true)] {
+        let _g = crate::c08::CWD_LOCK.lock().unwrap();
+        let d = crate::fixture::tmpdir();
+        let old = std::env::current_dir().unwrap();
+        std::env::set_current_dir(d.path()).unwrap();
+        let truth = std::process::Command::new("sh").arg("-c").arg(script).output();
+        let res = no_panic(|| in_toto::runlib::run_command(&["sh", "-c", script], None));
+        std::env::set_current_dir(old).unwrap();
+        let (want_out, want_err) = match &truth { Ok(o) => (o.stdout.clone(), o.stderr.clone()), Err(_) => continue };
+        let (obs, ok) = match &res {
+            Ok(Ok(bp)) => { let so = bp.stdout().clone().unwrap_or_default().into_bytes(); let se = bp.stderr().clone().unwrap_or_default().into_bytes();
+                (format!("Ok stdout={:?} stderr={:?} (the command wrote stdout={:?} stderr={:?})", so, se, want_out, want_err), so == want_out && se == want_err) }
+            Ok(Err(e)) => (format!("Err({})", e), !representable),
+            Err(p) => (format!("panic: {}", p), false) };
+        r.case("byproducts-are-the-output-bytes", json!({"output": id}), if representable { "Ok with exactly the bytes written" } else { "Err, or Ok with exactly the bytes written" }, obs, ok);
     }
 }
